@@ -88,7 +88,8 @@ func main() {
 			"recover, watchdog and a child process under RLIMIT_AS for huge announced sizes; scenario request lists (leading sleep, unknown names, " +
 			"bad counts) through http/grpc scenario NewProvider with YAML and HCL payloads; str.ParseStringFunc, ParseShootName, util.DecodeHeader, " +
 			"mp.GetMapValue (next/rand/last/int indices on empty and non-empty sources), ${property:}/${env:} placeholders through config.DecodeAndValidate, " +
-			"randInt through templater.ParseFunc/ExecTemplateFunc, cli.Run in a child process for configs without a well-formed pools list; " +
+			"randInt and randString (negative, zero, non-numeric lengths) through templater.ParseFunc/ExecTemplateFunc and through a `variables` source of a scenario file, " +
+			"empty (null) items in the plugin lists of a scenario file, scenario weights (negative, zero, missing, with common divisors) through the scenario providers with one full pass acquired, cli.Run in a child process for configs without a well-formed pools list; " +
 			"a case is non-trivial when it reaches the modelled decoder with a non-empty input",
 	})
 }
@@ -105,7 +106,15 @@ func run(input string) string {
 		}
 		if guard := ammoGuard(kv["fmt"], data); guard != "" {
 			if guard == "child" {
-				return runChild("case", input)
+				// the input goes through a file: a command-line argument is limited to 128 KiB
+				f, err := os.CreateTemp("", "c13-case-*.txt")
+				if err != nil {
+					return "HARNESSERR " + err.Error()
+				}
+				defer os.Remove(f.Name())
+				_, _ = f.WriteString(input)
+				_ = f.Close()
+				return runChild("case", f.Name())
 			}
 			return guard
 		}
@@ -136,6 +145,12 @@ func run(input string) string {
 		return runScnRaw(kv, data)
 	case "ri":
 		return runRandInt(kv)
+	case "scnw":
+		return runScnWeights(kv)
+	case "rs":
+		return runRandString(kv)
+	case "scnnull":
+		return runScnNull(kv)
 	case "cli":
 		return runCli(kv)
 	}
@@ -151,7 +166,12 @@ func childMain(mode string, args []string) {
 		lim := syscall.Rlimit{Cur: childRlimit, Max: childRlimit}
 		_ = syscall.Setrlimit(syscall.RLIMIT_AS, &lim)
 		setup()
-		input := strings.Join(args, " ")
+		raw, err := os.ReadFile(args[0])
+		if err != nil {
+			fmt.Println("OBS HARNESSERR " + err.Error())
+			os.Exit(0)
+		}
+		input := string(raw)
 		kv := drv.KV(input)
 		data, _ := hex.DecodeString(kv["hex"])
 		done := make(chan string, 1)
@@ -263,8 +283,14 @@ func class(input, obs string) string {
 		}
 		k += ":" + kv["fmt"]
 	}
-	if k == "scn" || k == "scnraw" {
+	if k == "scn" || k == "scnraw" || k == "scnw" {
 		k += ":" + kv["kind"] + ":" + kv["fmt"]
+	}
+	if k == "rs" {
+		k += ":" + kv["via"]
+	}
+	if k == "scnnull" {
+		k += ":" + kv["kind"] + ":" + kv["where"]
 	}
 	end := "other"
 	switch {
